@@ -53,6 +53,9 @@ def run(tier):
     from . import c20
     from .common import Relabel
     c20._b_key_params(Relabel(chk, {"C20.b": "C13.d-cache"}), [x for x in c20._sites() if x.cls.name == "_OrbitContinuationService"])
+    # the public facade binds every argument to the service parameter it is meant for (nominal swap rule, rules/common.py)
+    from . import common as _common
+    _common.facade_bindings(chk, "C13.d-facade", ['hiten.system.orbits', 'hiten.system.family'], floor=5)
     return chk
 
 
